@@ -718,3 +718,106 @@ VARIANTS += [
     dict(prop="C01", name="shard-merge-wraps", expect="SAT-merge|saturating-addition",
          edits=[dict(file=SFF, find="            self.values = integer_sat_add::<_, ThirtyTwoBitStep, B>(\n                ctx,\n                record_id,\n                &self.values,\n                &other.values,\n            )\n            .await?;", replace="            let (sum, _) = crate::protocol::ipa_prf::boolean_ops::addition_sequential::integer_add::<_, ThirtyTwoBitStep, B>(\n                ctx.narrow(&crate::protocol::ipa_prf::boolean_ops::step::SaturatedAdditionStep::Add),\n                record_id,\n                &self.values,\n                &other.values,\n            )\n            .await?;\n            self.values = sum;")]),
 ]
+
+SSF = "ipa-core/src/protocol/ipa_prf/shuffle/sharded.rs"
+VARIANTS += [
+    dict(prop="C05", name="shuffle-h2-masks-with-wrong-pair", expect="ALGEBRA|",
+         edits=[dict(file=SSF, find="        .narrow(&ShuffleStep::Permute23)\n        .mask_and_shuffle(Direction::Right, &x2)", replace="        .narrow(&ShuffleStep::Permute23)\n        .mask_and_shuffle(Direction::Left, &x2)")]),
+    dict(prop="C05", name="shuffle-rng-sides-swapped", expect="ALGEBRA|",
+         edits=[dict(file=SSF, find="                Direction::Left => ctx.prss_rng().0,\n                Direction::Right => ctx.prss_rng().1,", replace="                Direction::Left => ctx.prss_rng().1,\n                Direction::Right => ctx.prss_rng().0,")]),
+    dict(prop="C05", name="shuffle-h3-share-sides-swapped", expect="ALGEBRA|replicated",
+         edits=[dict(file=SSF, find="                Ok::<_, Error<_>>(S::new(c1 + c2, a))", replace="                Ok::<_, Error<_>>(S::new(a, c1 + c2))")]),
+    dict(prop="C05", name="shuffle-h2-result-without-c2", expect="ALGEBRA|reconstructs-to-input",
+         edits=[dict(file=SSF, find="                Ok::<_, Error<_>>(S::new(b, c1 + c2))", replace="                let _ = c2;\n                Ok::<_, Error<_>>(S::new(b, c1))")]),
+    dict(prop="C05", name="shuffle-h3-keeps-unmasked-y2", expect="ALGEBRA|verification-pair:x2~y2",
+         edits=[dict(file=SSF, find="    Ok((res, IntermediateShuffleMessages::H3 { y1, y2 }))\n}", replace="    let y2 = y1.clone();\n    Ok((res, IntermediateShuffleMessages::H3 { y1, y2 }))\n}")]),
+    dict(prop="C05", name="shuffle-h1-sum-helper", benign=True,
+         edits=[dict(file=SSF, find="            shares.into_iter().map(|share| share.left() + share.right()),", replace="            shares.into_iter().map(sum_of_sides::<S>),"),
+                dict(file=SSF, find="/// Sharded shuffle as performed by shards on H2.", replace="fn sum_of_sides<S: Shuffleable>(share: S) -> S::Share {\n    let l = share.left();\n    l + share.right()\n}\n\n/// Sharded shuffle as performed by shards on H2.")]),
+    dict(prop="C05", name="shuffle-mask-right-operand-first", benign=True,
+         edits=[dict(file=SSF, find="                let c2 = y3 + &a;", replace="                let masked: S::Share = y3 + &a;\n                let c2 = masked;")]),
+]
+
+CMF = "ipa-core/src/protocol/context/mod.rs"
+VARIANTS += [
+    dict(prop="C05", name="recv-all-any-error-ends-table", expect="TRANSFER|recv_all:ends-only-on-end-of-stream",
+         edits=[dict(file=SSF, find="                    Err(Error::EndOfStream { .. }) => break,\n                    Err(e) => return Err(e.into()),", replace="                    Err(_) => break,")]),
+    dict(prop="C05", name="recv-all-skips-a-record-id", expect="TRANSFER|recv_all:next-record-id",
+         edits=[dict(file=SSF, find="                    Ok(v) => buf.push(v),\n                    Err(Error::EndOfStream { .. }) => break,", replace="                    Ok(v) => {\n                        buf.push(v);\n                        rid += 1;\n                    }\n                    Err(Error::EndOfStream { .. }) => break,")]),
+    dict(prop="C05", name="send-all-ok-without-close", expect="TRANSFER|send_all:closes-before-ok",
+         edits=[dict(file=SSF, find="            send_channel.close(RecordId::from(sz)).await;\n\n            Ok(())", replace="            if sz > 0 {\n                send_channel.close(RecordId::from(sz)).await;\n            }\n\n            Ok(())")]),
+    dict(prop="C05", name="send-all-ignores-send-errors", expect="TRANSFER|send_all:send-errors-propagate",
+         edits=[dict(file=SSF, find="            while let Some(v) = send_stream.next().await {\n                v?;\n            }", replace="            while let Some(v) = send_stream.next().await {\n                let _ = v;\n            }")]),
+    dict(prop="C05", name="h2-empty-return-before-size-word", expect="TRANSFER|h2:size-reported-before-any-return",
+         edits=[dict(file=SSF, find="    // at this moment we know the cardinality of C, and we let H1 know it, so it can start\n    // setting up its own shares.\n    ctx.narrow(&ShuffleStep::Cardinality)\n        .send_word(Direction::Left, x3.len())\n        .await?;\n\n    let Some(x3_len) = NonZeroUsize::new(x3.len()) else {\n        return Ok((Vec::new(), IntermediateShuffleMessages::H2 { x2 }));\n    };", replace="    let Some(x3_len) = NonZeroUsize::new(x3.len()) else {\n        return Ok((Vec::new(), IntermediateShuffleMessages::H2 { x2 }));\n    };\n    ctx.narrow(&ShuffleStep::Cardinality)\n        .send_word(Direction::Left, x3.len())\n        .await?;")]),
+    dict(prop="C05", name="h3-empty-return-on-empty-y1", expect="TRANSFER|h3:empty-return-only-if-empty",
+         edits=[dict(file=SSF, find="    let Some(y3_len) = NonZeroUsize::new(y3.len()) else {", replace="    let Some(y3_len) = NonZeroUsize::new(y3.len().min(y1.len())) else {")]),
+    dict(prop="C05", name="pick-shard-ignores-direction", expect="TRANSFER|pick_shard:draw-mod-shard-count",
+         edits=[dict(file=CMF, find="        let index: u128 = self.prss().generate_one_side(record_id, direction);", replace="        let _ = direction;\n        let index: u128 = self.prss().generate_one_side(record_id, Direction::Left);")]),
+    dict(prop="C05", name="recv-all-match-rewritten", benign=True,
+         edits=[dict(file=SSF, find="                match recv_channel.receive(rid).await {\n                    Ok(v) => buf.push(v),\n                    Err(Error::EndOfStream { .. }) => break,\n                    Err(e) => return Err(e.into()),\n                }", replace="                let item = recv_channel.receive(rid).await;\n                let v = match item {\n                    Ok(v) => v,\n                    Err(Error::EndOfStream { .. }) => break,\n                    Err(e) => return Err(e.into()),\n                };\n                buf.push(v);")]),
+]
+
+PRF = "ipa-core/src/protocol/prss/mod.rs"
+VARIANTS += [
+    dict(prop="C06", name="prss-offset-masked-to-11-bits", expect="RANGE-index|packing-injective",
+         edits=[dict(file=PRF, find="            (u64::from(value.index.0) << 32) + u64::from(value.offset)", replace="            (u64::from(value.index.0) << 32) | u64::from(value.offset & (PrssIndex128::MAX_OFFSET - 1))")]),
+    dict(prop="C06", name="prss-packing-with-or", benign=True,
+         edits=[dict(file=PRF, find="            (u64::from(value.index.0) << 32) + u64::from(value.offset)", replace="            (u64::from(value.index.0) << 32) | u64::from(value.offset)")]),
+    dict(prop="C06", name="prss-packing-shift-11", expect="RANGE-index|packing-injective",
+         edits=[dict(file=PRF, find="            (u64::from(value.index.0) << 32) + u64::from(value.offset)", replace="            (u64::from(value.index.0) << 11) + u64::from(value.offset)")]),
+]
+
+DPF = "ipa-core/src/protocol/dp/mod.rs"
+VARIANTS += [
+    dict(prop="C12", name="laplace-sampler-reads-defaulted-sensitivity", expect="FIELDS-noise|DiscreteLaplace:consumers-read-initialised-fields",
+         edits=[dict(file=DPF, find="        let truncated_discrete_laplace = OPRFPaddingDp::new(\n            noise_params.epsilon,\n            noise_params.delta,\n            noise_params.per_user_credit_cap,\n        )?;\n        let shift = truncated_discrete_laplace.get_shift();", replace="        #[allow(clippy::cast_possible_truncation, clippy::cast_sign_loss)]\n        let sensitivity = noise_params.ell_1_sensitivity.ceil() as u32;\n        let truncated_discrete_laplace =\n            OPRFPaddingDp::new(noise_params.epsilon, noise_params.delta, sensitivity)?;\n        let shift = truncated_discrete_laplace.get_shift();")]),
+    dict(prop="C12", name="laplace-sensitivity-field-moved-consistently", benign=True,
+         edits=[dict(file=DPF, find="        let truncated_discrete_laplace = OPRFPaddingDp::new(\n            noise_params.epsilon,\n            noise_params.delta,\n            noise_params.per_user_credit_cap,\n        )?;\n        let shift = truncated_discrete_laplace.get_shift();", replace="        #[allow(clippy::cast_possible_truncation, clippy::cast_sign_loss)]\n        let sensitivity = noise_params.ell_1_sensitivity.ceil() as u32;\n        let truncated_discrete_laplace =\n            OPRFPaddingDp::new(noise_params.epsilon, noise_params.delta, sensitivity)?;\n        let shift = truncated_discrete_laplace.get_shift();"),
+                dict(file=DPF, find="                per_user_credit_cap: 2_u32.pow(u32::try_from(SS_BITS).unwrap()),\n                ..Default::default()\n            };\n\n            let truncated_discret_laplace", replace="                per_user_credit_cap: 2_u32.pow(u32::try_from(SS_BITS).unwrap()),\n                ell_1_sensitivity: f64::from(2_u32.pow(u32::try_from(SS_BITS).unwrap())),\n                ..Default::default()\n            };\n\n            let truncated_discret_laplace")]),
+]
+
+DVF = "ipa-core/src/protocol/context/dzkp_validator.rs"
+DMF = "ipa-core/src/protocol/basics/mul/dzkp_malicious.rs"
+VARIANTS += [
+    dict(prop="C03", name="block-set-prss-sides-exchanged", expect="FIELDS-block|set@insert_segment_large",
+         edits=[dict(file=DVF, find="                    &segment.y_right.0[256 * i..256 * (i + 1)],\n                    &segment.prss_left.0[256 * i..256 * (i + 1)],\n                    &segment.prss_right.0[256 * i..256 * (i + 1)],\n                    &segment.z_right.0[256 * i..256 * (i + 1)],\n                )\n                .unwrap();\n            } else {", replace="                    &segment.y_right.0[256 * i..256 * (i + 1)],\n                    &segment.prss_right.0[256 * i..256 * (i + 1)],\n                    &segment.prss_left.0[256 * i..256 * (i + 1)],\n                    &segment.z_right.0[256 * i..256 * (i + 1)],\n                )\n                .unwrap();\n            } else {")]),
+    dict(prop="C03", name="small-segment-y-pair-crossed", expect="FIELDS-block|insert_segment_small:like-named-pairs",
+         edits=[dict(file=DVF, find="            (segment.y_left, &mut block.y_left),\n            (segment.y_right, &mut block.y_right),", replace="            (segment.y_left, &mut block.y_right),\n            (segment.y_right, &mut block.y_left),")]),
+    dict(prop="C03", name="zkp-multiply-records-b-for-x-right", expect="FIELDS-block|zkp_multiply:x_right",
+         edits=[dict(file=DMF, find="        F::as_segment_entry(a.right_arr()),\n        F::as_segment_entry(b.left_arr()),", replace="        F::as_segment_entry(b.right_arr()),\n        F::as_segment_entry(b.left_arr()),")]),
+    dict(prop="C03", name="block-setter-stores-twice", expect="FIELDS-block|MultiplicationInputsBlock::set:parameters-onto-fields",
+         edits=[dict(file=DVF, find="        self.prss_right = BitArray::try_from(prss_right)?;\n        self.z_right = BitArray::try_from(z_right)?;\n\n        Ok(())", replace="        self.prss_right = BitArray::try_from(prss_left)?;\n        self.z_right = BitArray::try_from(z_right)?;\n        let _ = prss_right;\n\n        Ok(())")]),
+    dict(prop="C03", name="large-segment-slices-bound-first", benign=True,
+         edits=[dict(file=DVF, find="            if self.vec.len() > block_id + i {\n                MultiplicationInputsBlock::set(\n                    &mut self.vec[block_id + i],\n                    &segment.x_left.0[256 * i..256 * (i + 1)],", replace="            if self.vec.len() > block_id + i {\n                let range = 256 * i..256 * (i + 1);\n                let first = &segment.x_left.0[range];\n                MultiplicationInputsBlock::set(\n                    &mut self.vec[block_id + i],\n                    first,")]),
+]
+
+VARIANTS += [
+    dict(prop="C18", name="status-fold-not-carried", expect="FLOW-status|fold#0:carried",
+         edits=[dict(file=PR, find="        let shard_query_status_req = CompareStatusRequest { query_id, status };", replace="        let leader_status = status;\n        let shard_query_status_req = CompareStatusRequest { query_id, status };"),
+                dict(file=PR, find="                    status = min_status(status, other);", replace="                    status = min_status(leader_status, other);")]),
+    dict(prop="C18", name="status-fold-operands-swapped", benign=True,
+         edits=[dict(file=PR, find="                    status = min_status(status, other);", replace="                    status = min_status(other, status);")]),
+]
+
+CSF = "ipa-core/src/protocol/ipa_prf/boolean_ops/comparison_and_subtraction_sequential.rs"
+_c07cmp = _json.load(open(_os.path.join(_os.path.dirname(_os.path.abspath(__file__)), "c07_cmp.json")))
+_c07calls = [dict(file=CSF, find="    subtraction_circuit::<_, S, 1>(ctx, record_id, x, y, &mut carry).await?;\n    Ok(carry)", replace="    comparison_circuit::<_, S, 1>(ctx, record_id, x, y, &mut carry).await?;\n    Ok(carry)"),
+             dict(file=CSF, find="    subtraction_circuit::<_, S, N>(ctx, record_id, x, y, &mut carry).await?;\n    Ok(carry)", replace="    comparison_circuit::<_, S, N>(ctx, record_id, x, y, &mut carry).await?;\n    Ok(carry)")]
+VARIANTS += [
+    dict(prop="C07", name="comparison-carry-only-ripple-truncates-x", expect="WIRE-loop|comparison_circuit:zip",
+         edits=_c07calls + [dict(file=CSF, find=_c07cmp["anchor"], replace=_c07cmp["bad"])]),
+    dict(prop="C07", name="comparison-carry-only-ripple", benign=True,
+         edits=_c07calls + [dict(file=CSF, find=_c07cmp["anchor"], replace=_c07cmp["good"])]),
+]
+
+CHF = "ipa-core/src/helpers/stream/chunks.rs"
+_c01u = _json.load(open(_os.path.join(_os.path.dirname(_os.path.abspath(__file__)), "c01_unpack.json")))
+VARIANTS += [
+    dict(prop="C01", name="unpack-last-full-subchunk-tagged-partial-0", expect="RANGE-partial|nonzero:unpack",
+         edits=[dict(file=CHF, find=_c01u["find"], replace=_c01u["bad"])]),
+    dict(prop="C01", name="unpack-rewritten-with-index-arithmetic", benign=True,
+         edits=[dict(file=CHF, find=_c01u["find"], replace=_c01u["good"])]),
+    dict(prop="C01", name="slice-chunks-partial-without-remainder-guard", expect="RANGE-partial|nonzero:next_chunk",
+         edits=[dict(file=CHF, find="        } else if *this.pos == whole_chunks && *this.remainder_len != 0 {", replace="        } else if *this.pos == whole_chunks {")]),
+]
